@@ -17,7 +17,7 @@ Col(n, j) ==
 MkK(ws, sel) ==      \* sel: offset choosing the columns
   KRec(ws, [m \in 1..N0 |-> [i \in 1..ShapeC[m] |-> [r \in 1..Len(ws) |-> Col(ShapeC[m], sel + m + 2 * r)[i]]]])
 
-Weights == {<<1>>, <<0 - 2>>, <<0>>, <<1, 3>>, <<3, 1>>, <<0 - 2, 1>>, <<1, 1>>, <<0, 3>>, <<1, 0 - 2, 3>>, <<3, 3, 1>>, <<0 - 2, 0, 1>>}
+Weights == {<<1>>, <<0 - 2>>, <<0>>, <<0 - 1>>, <<1, 0 - 1>>, <<0 - 1, 0 - 1, 1>>, <<1, 3>>, <<3, 1>>, <<0 - 2, 1>>, <<1, 1>>, <<0, 3>>, <<1, 0 - 2, 3>>, <<3, 3, 1>>, <<0 - 2, 0, 1>>}
 Ks == {MkK(w, sel) : w \in Weights, sel \in 0..2}
 
 St(op, a) == [op |-> op, a |-> a]
